@@ -12,7 +12,7 @@ use text_utils::data::loading::{BatchLimitType, GenerationStrategy};
 use text_utils::data::postprocessing::PostprocessingFnConfig;
 use text_utils::data::preprocessing::{Part, PreprocessingFnConfig, SpellingCorruptionMode};
 use text_utils::data::task::TrainTaskConfig;
-use text_utils::data::verif::{run_train_loader, LoaderArgs};
+use text_utils::data::verif::{LoaderArgs, LoaderHandle};
 use text_utils::data::{PostprocessingConfig, PreprocessingConfig, TrainPipelineConfig};
 use text_utils::tokenization::{
     ByteGroups, ByteTokenizerConfig, GroupAggregation, SpecialConfig, TokenizeConfig,
@@ -197,17 +197,32 @@ fn run(c: &Case, f: &Files, v: &Vary) -> Result<(Option<usize>, Vec<Vec<Fp>>), S
         text_utils::verif::install(Some(Chaos::new(ch) as Arc<dyn Controller>));
     }
     beat();
-    let r = run_train_loader(args);
+    let opened = LoaderHandle::open(&args);
     text_utils::verif::install(None);
+    // Pipe::new replaced the panic hook by one that exits the process; take it back before any
+    // item is pulled, so that a panic in the code under test is recorded, not fatal
     install_panic_hook();
+    let mut handle = opened.map_err(|e| format!("loader construction failed: {e}"))?;
+    let min_items = handle.min_items;
+    let mut views = vec![];
+    loop {
+        beat();
+        match handle.next_batch() {
+            Ok(Some(b)) => views.push(b),
+            Ok(None) => break,
+            Err(e) => return Err(format!("loader failed: {e}")),
+        }
+        if views.len() > 10_000 {
+            return Err("loader yields batches without end".into());
+        }
+    }
+    drop(handle);
     beat();
-    let r = r.map_err(|e| format!("loader failed: {e}"))?;
-    let batches = r
-        .batches
+    let batches = views
         .iter()
         .map(|b| b.items.iter().map(|i| (i.input.clone(), i.target.clone(), format!("{:?}", i.task))).collect())
         .collect();
-    Ok((r.min_items, batches))
+    Ok((min_items, batches))
 }
 
 fn flat(b: &[Vec<Fp>]) -> Vec<Fp> {
